@@ -15,6 +15,8 @@ dropped from a plan) with a kind
     kill-before   the process dies before the call has any effect            (Crash raised, engine goes *dead*)
     kill-after    the call takes effect, then the process dies
     fail          the call has no effect and raises OSError(errno) / a bare PermissionError
+    fail-drop     (fsync only) raises the errno and the file loses the second half of its content (Linux marks dirty pages
+                  clean after a write-back error: a failed fsync means the data may be gone while the process lives on)
     short         (raw write only) only the first n bytes are written, n is returned — an environment answer
     partial-kill  (raw write only) the first n bytes are written, then the process dies
 
@@ -66,7 +68,8 @@ KILL_AFTER = "kill-after"
 FAIL = "fail"
 SHORT = "short"
 PARTIAL_KILL = "partial-kill"
-KINDS = (KILL_BEFORE, KILL_AFTER, FAIL, SHORT, PARTIAL_KILL)
+FAIL_DROP = "fail-drop"     # (fsync only) the call fails AND the kernel drops the not-yet-durable data of that file
+KINDS = (KILL_BEFORE, KILL_AFTER, FAIL, SHORT, PARTIAL_KILL, FAIL_DROP)
 
 SEAMS = ("os", "tempfile", "time", "Path", "open")
 
@@ -88,6 +91,8 @@ def fault_tag(f: Dict[str, Any]) -> str:
     k = f["kind"]
     if k == FAIL:
         return "fail-%s" % f["errno"]
+    if k == FAIL_DROP:
+        return "fail-drop-%s" % f["errno"]
     return k
 
 
@@ -383,6 +388,7 @@ class FaultEngine:
         self.plan: List[Dict[str, Any]] = []
         self.trace: List[Dict[str, Any]] = []
         self.fired: List[Tuple[int, Dict[str, Any]]] = []
+        self._durable: Dict[Tuple[int, int], int] = {}
         self.probe: Optional[Callable[["FaultEngine", Dict[str, Any]], None]] = None
         self.root: Optional[str] = None
         self.clock = 1_700_000_000.0
@@ -430,6 +436,7 @@ class FaultEngine:
         self.plan = list(plan)
         self.trace = []
         self.fired = []
+        self._durable = {}
         self.probe = probe
         self.root = root
         self.clock = 1_700_000_000.0
@@ -568,7 +575,14 @@ class FaultEngine:
                 self.in_probe = False
         f = self._lookup(idx, label, occ, site, socc)
         if f is None:
-            return self._real(fn, a, k)
+            r = self._real(fn, a, k)
+            if label == "fsync":
+                try:
+                    st_ = _os.fstat(a[0])
+                    self._durable[(st_.st_dev, st_.st_ino)] = st_.st_size
+                except Exception:
+                    pass
+            return r
         self.fired.append((idx, f))
         kind = f["kind"]
         if kind == KILL_BEFORE:
@@ -576,6 +590,22 @@ class FaultEngine:
         if kind == FAIL:
             if not failable:
                 raise HarnessError("fault plan fails a non-failing call: %s #%d" % (label, idx))
+            raise make_exc(f["errno"])
+        if kind == FAIL_DROP:
+            if label != "fsync":
+                raise HarnessError("fail-drop is defined for fsync only, not %s #%d" % (label, idx))
+            try:
+                fd = a[0]
+                st_ = _os.fstat(fd)
+                import stat as _stat
+                if _stat.S_ISREG(st_.st_mode):
+                    # only data written since the last SUCCESSFUL fsync of this inode can be lost; of that, half goes.
+                    # by path: the descriptor may be read-only (an fsync helper that re-opens the file)
+                    durable = self._durable.get((st_.st_dev, st_.st_ino), 0)
+                    if st_.st_size > durable:
+                        _os.truncate(_os.readlink("/proc/self/fd/%d" % fd), durable + (st_.st_size - durable) // 2)
+            except Exception:
+                pass   # a directory handle / no procfs: nothing to drop
             raise make_exc(f["errno"])
         if kind in (SHORT, PARTIAL_KILL):
             if not writer:
